@@ -32,6 +32,16 @@ open_("F1", "C03", "INSERT of NULL into a PRIMARY KEY/UNIQUE column fails only a
 open_("F2", "C03", "a session begun before another transaction's CREATE TABLE fails its next INSERT with 'btree page not found: 0'", "O-res", "ddl_concurrent_with_open_session", "findings/F2-session-insert-after-concurrent-ddl-and-inserts.json")
 open_("F3", "C03", "with more than three relations (tables + indexes) concurrent inserts corrupt catalog rows: 'table not found', panics or process abort", "O-res", "more_than_3_relations", "findings/F3-many-relations-concurrent-catalog-updates.json")
 
+# ---- open findings: constraints (C07) ----
+open_("U1", "C07", "after an INSERT of key K was rolled back, K can be inserted twice: the UNIQUE check finds the aborted index entry and misses the live one", "O-res", "collision_with_key_of_rolled_back_insert", "findings/U1-key-freed-by-rollback-can-be-inserted-twice.json")
+open_("U1b", "C07", "a key left behind by a failed multi-row INSERT and inserted again is missed by index lookups (k = K returns nothing)", "O-res", "collision_with_key_of_rolled_back_insert", "findings/U1b-key-of-failed-insert-reinserted-is-missed-by-index-lookup.json")
+open_("U2", "C07", "deleting a row and re-inserting its UNIQUE key hides the old row from transactions whose snapshot predates the delete (index entry overwritten)", "O-res", "unique_key_reuse_while_session_open", "findings/U2-reinserted-unique-key-hides-old-row-from-older-snapshot.json")
+open_("U3", "C07", "a transaction that deletes a row and re-inserts its UNIQUE key and then fails leaves the index without the original row", "O-res", "unique_key_reuse_while_session_open", "findings/U3-delete-and-reinsert-of-key-in-rolled-back-txn-breaks-index.json")
+for prop in ("C07",):
+    open_("D5", prop, "UPDATE inside an open transaction is visible to other transactions at once (and survives ROLLBACK)", "O-res", "update_inside_session", "findings/D5-update-in-session-visible-to-others.json")
+    open_("D7", prop, "any UPDATE of a table that has a PRIMARY KEY / UNIQUE index fails with 'datatype mismatch ... BigUInt'", "O-res", "history_contains_update", "findings/D7-update-on-table-with-unique-index.json")
+    open_("F1", prop, "INSERT of NULL into a PRIMARY KEY/UNIQUE column fails only after the row was stored: the row stays and a later committed insert is lost", "O-state", "null_into_unique_column", "findings/F1-null-into-unique-column-leaves-row.json")
+
 # ---- open findings: E2 (crash simulator) ----
 open_("D3", "C01", "a transaction open at the crash on a table whose CREATE is still in the log makes open fail ('Table not found'): undo runs before redo", "O-open", "open_txn_on_uncheckpointed_table", "findings/D3-open-txn-on-uncheckpointed-table.json")
 open_("D3b", "C08", "an uncommitted CREATE TABLE in the log at the crash makes open fail ('Table not found' while undoing it)", "O-open", "uncommitted_create_at_crash", "findings/D3b-uncommitted-create-at-crash.json")
@@ -39,7 +49,12 @@ open_("D22b", "C01", "a crash inside a checkpoint, between its first page write 
 open_("F4", "C01", "a checkpoint taken while a transaction is open writes its uncommitted changes and discards the log: after a crash they are permanent", "O-durability", "checkpoint_with_open_txn", "findings/F4-checkpoint-with-open-txn.json")
 open_("F5", "C02", "a transaction that inserted and then deleted a row and is open (or failed) at the crash leaves that row behind after recovery", "O-atomicity", "delete_of_own_insert", "findings/F5-own-insert-then-delete-open-at-crash.json")
 open_("D6c", "C01", "DROP TABLE writes freed pages to the file before the transaction commits; a crash then makes open fail while redoing the table's logged rows", "O-open", "drop_table_before_crash", "findings/D6c-drop-table-writes-pages-before-commit.json")
+open_("F7", "C01", "recovery of rows with overflow chains (several KB of text) leaves the table unreadable (panic at storage/core/buffer.rs:570)", "O-open", "big_rows_before_crash", "findings/F7-recovery-of-rows-with-overflow-chains.json")
+open_("D6d", "C01", "deleting a row with an overflow chain writes the freed pages to the file before commit; after a crash the acknowledged row comes back corrupted", "O-durability", "big_rows_before_crash", "findings/D6d-delete-of-overflow-row-writes-pages-before-commit.json")
 open_("F6", "C08", "recovery truncates the log before the pages it redid are durable: a crash right after a recovery loses everything it recovered", "O-repeat", "crash_after_recovery_truncate", "findings/F6-recovery-truncates-log-before-redone-pages-are-durable.json")
+
+# ---- open findings: E3a (WAL) ----
+open_("W1", "C17", "an append whose size lies between (block size - 2 headers) and the advertised max_record_size is rejected after the header was already updated; reading the log then fails until the next force", "O-wal", "append_near_block_size_rejected", "findings/W1-rejected-append-leaves-log-unreadable-until-next-force.json")
 
 json.dump({"comment": "Known findings of the pinned tree. 'open': genuine defects recorded rather than repaired; each check prints KNOWN-FINDING for those of its property whose reproducer still fails. 'fixed': repaired by a fix: commit in /repo; a fixed entry suppresses nothing. Never written at run time. Generated by tools/mkfindings.py.", "findings": F}, open("/verif/known_findings.json", "w"), indent=1)
 print(len(F), "findings")
